@@ -57,6 +57,11 @@ type GroupedPoints struct {
 
 // SetValue populates v with the Points in the group
 func (g GroupedPoints) SetValue(v reflect.Value) error {
+	// unexported fields cannot be set; the cases below call v.Set and friends
+	// in several places
+	if !v.CanSet() {
+		return fmt.Errorf("cannot set value %v", v)
+	}
 	t := v.Type()
 	k := t.Kind()
 	// Special case to handle pointers to structs
